@@ -69,16 +69,20 @@ static polyseed_data* obtain(pv_rng* rng, const pv_mseed* m, int how, unsigned c
         s = pv_seed_from_model(m);
         /* encrypted and decrypted while a different set of user features is enabled: the seed must keep its own bits */
         if (s) { bool other = pv_randn(rng, 2); if (other) { polyseed_enable_features(pv_randn(rng, 7)); PV_COUNT("paths.crypt_under_a_different_feature_mask", 1); }
-                 pv_api_crypt(s, "p\xc3\xa4ss"); if (other) polyseed_enable_features(pv_randn(rng, 7)); pv_api_crypt(s, "p\xc3\xa4ss"); if (other) polyseed_enable_features(7); }
+                 /* the password operation cannot report failure: a refused allocation (should it make any) must not change what it does */
+                 bool refuse = pv_randn(rng, 3) == 0; if (refuse) { pv_w->fail_countdown = 1; PV_COUNT("paths.crypt_with_failing_allocator", 1); }
+                 pv_api_crypt(s, "p\xc3\xa4ss"); pv_w->fail_countdown = 0; if (other) polyseed_enable_features(pv_randn(rng, 7)); pv_api_crypt(s, "p\xc3\xa4ss"); if (other) polyseed_enable_features(7); }
         return s; }
     default: {       /* an encrypted copy is stored, loaded and decrypted */
         s = pv_seed_from_model(m);
         if (!s) return NULL;
-        pv_api_crypt(s, "other");
+        const char* pw2 = pv_randn(rng, 2) ? "other" : "\xc3\xb6ther \xef\xac\x81";       /* half of the time a password that normalisation changes */
+        pv_api_crypt(s, pw2);
         uint8_t* img = malloc(32); pv_api_store(s, img); pv_api_free(s); s = NULL;
         int st = pv_api_load(img, &s); free(img);
         if (st != POLYSEED_OK) return NULL;
-        pv_api_crypt(s, "other");
+        if (pv_randn(rng, 3) == 0) { pv_w->fail_countdown = 1; PV_COUNT("paths.crypt_with_failing_allocator", 1); }
+        pv_api_crypt(s, pw2); pv_w->fail_countdown = 0;
         return s; }
     }
 }
